@@ -330,6 +330,8 @@ class Body:
             for e in proj:
                 if isinstance(e, dict) and "f" in e:
                     names.append(e["n"] if e.get("n") is not None else str(e["f"]))
+                elif isinstance(e, dict) and "d" in e:
+                    names.append("@" + e["d"])
             return tuple(names)
 
         def from_operand(o, path, d):
@@ -387,10 +389,16 @@ class Body:
                     if w == POLL or (w and is_pass_through(w, r) and payload["args"]):
                         # the Poll::Ready payload / pass-through: value of arg 0
                         p2 = path
-                        if w == POLL and p2 and p2[0] == "0":
-                            p2 = p2[1:]
-                        elif w and (w.endswith("::branch")) and p2 and p2[0] == "0":
-                            p2 = p2[1:]
+                        if w == POLL:
+                            if p2[:2] == ("@Ready", "0"):
+                                p2 = p2[2:]
+                            elif p2[:1] == ("@Pending",):
+                                continue
+                        elif w and w.endswith("::branch"):
+                            if p2[:2] == ("@Continue", "0"):
+                                p2 = ("@+", "0") + p2[2:]
+                            elif p2[:2] == ("@Break", "0"):
+                                p2 = p2[2:]
                         if via is not None:
                             via.add(r or w)
                         from_operand(payload["args"][0], p2, d - 1)
@@ -412,6 +420,14 @@ class Body:
                 if rv.get("variant"):
                     head = "%s::%s" % (head, rv["variant"])
                 # payload extraction: (x as V).i after `x = V{ops}`
+                if path and path[0].startswith("@") and rv["ak"] == "adt":
+                    v = rv.get("variant")
+                    if path[0] == "@+":
+                        if v not in ("Ok", "Some"):
+                            return  # the other variant was built here: not an origin of this payload
+                    elif v is not None and path[0] != "@" + v:
+                        return
+                    path = path[1:]
                 if path and rv["ak"] in ("adt", "tuple", "closure", "coroutine"):
                     idx = None
                     names = rv.get("fields")
